@@ -89,6 +89,9 @@ VALID = [
     'ul>li{${foo}}', 'a{${lang}}', 'p{\\$#}', 'p{a\\{b}', 'a\\>b', 'div>p*2>{$# $}', 'label>input', 'label[for]>input[id]',
     'cc:ie', 'a:link', 'div*0', 'div*1', 'p*2>span*2', 'ul>li*2>a{$}', 'div..a', 'div##a', 'a[b=1/2]', '1/2', 'a1/2',
     'div>ul>li*2^^p', 'a^b', 'a^^^^b', '+a', 'a+', 'a>', 'a^', 'a/', 'a*', 'a*3*2',
+    'div#i["q"]', "p.c['q' x]", 'a#i[{e}]', 'div#i.c[title=t "q" x. !y]{txt}', 'p.c[a={b} c="d e"]',
+    'ul#nav>li.item$*2>a[href=#]{$#}', 'label.c>input#i', 'label[for]>textarea[id]', 'div.b>.-e>._m', 'div.b_m>.b__e', 'xsl:variable[select=x]>p',
+    'xsl:with-param[select]{t}', 'vare>x', 'lorem', 'lorem5*2', 'ul>lorem3*2', 'p>lorem2-4', '.c*2>lorem1',
 ]
 # the inputs of every repaired defect (kept as corpus/C07/*.json as well)
 SEEDS = [('{*', {}), ('a{*}', {}), ('a[b="*3"]', {}), ('$#', {}), ('p{$#}', {}), ('[${1}', {}), ('a[${1}=x]', {}), ('[.', {}),
@@ -239,24 +242,28 @@ def mutate(rng, s, alphabet):
     return s[:90]
 
 
+ATTR_POOL = ['t=v', 'title="a b"', "d='x'", '"q"', "'s'", 'x.', '!y', 'z={e}', '{e}', 'k=${1:p}', 'href', 'data-a=$', 'for',
+             'id', 'class=k', 'id=j', 'select=s', 'n=1/2', 'm="$#"', 'v=${foo}']
+
+
 def rand_valid(rng, names):
+    """A valid abbreviation: abbr_gen statement whose elements carry independent random decorations
+    (id, classes, 1-3 attributes of every shape incl. nameless quoted / boolean / implied / expression, text, '/')."""
     def decorate(r, el):
-        k = r.random()
-        if k < 0.15:
-            el.classes = [r.choice(['k', 'c$', 'a-b'])]
-            if r.random() < 0.4:
+        if r.random() < 0.25:
+            el.classes = [r.choice(['k', 'c$', 'a-b', 'b_e', 'b__e_m'])] + (['z'] if r.random() < 0.3 else [])
+            if r.random() < 0.3:
                 el.name = None
-        elif k < 0.25:
+        if r.random() < 0.2:
             el.id = r.choice(['z', 'i$$'])
-        elif k < 0.4:
-            el.attrs = [(r.choice(['t', 'href', 'title', 'data-x']), r.choice([None, 'v', 'v w', '$', '${1:p}']),
-                         r.choice(['', '"', "'", '{']))]
-            if el.attrs[0][2] == '' and el.attrs[0][1] and ' ' in el.attrs[0][1]:
-                el.attrs = [(el.attrs[0][0], el.attrs[0][1], '"')]
-        elif k < 0.5:
-            el.text = r.choice(['t', 'a $# b', '${1:x}', '$', 'x y', '${foo}'])
-        elif k < 0.55:
+        if r.random() < 0.3:
+            el.attrs = [(r.choice(ATTR_POOL), None, '') for _ in range(r.randint(1, 3))]
+        if r.random() < 0.2:
+            el.text = r.choice(['t', 'a $# b', '${1:x}', '$', 'x y', '${foo}', 'http://e.com'])
+        if r.random() < 0.07:
             el.self_close = True
+        if r.random() < 0.05:
+            el.name = r.choice(['label', 'input', 'lorem4', 'xsl:variable', 'a', 'Foo'])
     st = g.rand_stmt(rng, names, rng.randint(1, 12), max_depth=3, decorate=decorate)
     return g.render(st)
 
